@@ -663,6 +663,7 @@ func c13DirUse(c *Ctx, r *Report, vreach map[*ssa.Function]bool) {
 	}
 	r.check("C13.DIRUSE", "directive uses on field arguments are validated where fields are validated", vdu.Pos(), argInFields, "validateFieldDefs never calls validateDirUse: directive uses on fields and on their arguments are not checked")
 	dirUseArgLoop(c, r, "C13.DIRUSE")
+	dirUseLocation(c, r, "C13.DIRUSE")
 }
 
 func c13Drop(c *Ctx, r *Report, vreach map[*ssa.Function]bool) {
